@@ -28,7 +28,7 @@ fn level(t: Tier) -> Level {
         assumptions: vec![
             "oracle: join() of the reader thread is Ok(Ok(())), the run ends within the 20 s watchdog (monotonic clock), and the sentinel line appended after the hostile lines has produced its row".into(),
             "a failing batch is bisected to the single line that causes it; the violation is keyed by that line".into(),
-            "option values: flags in all combinations, -u in {-1,0,3}, -d in {1,60}; astronomically large -u (overflows chrono::Duration before the first line) is outside the stated domain".into(),
+            "option values: flags in all combinations, -u in {-1,0,3}, -d in {1,60} on the 40-line stream, and -d in {-9,-1,0,1,60} x -u in {-7,-1,3} on a 600-frame stream; astronomically large -u (overflows chrono::Duration before the first line) is outside the stated domain".into(),
         ],
     }
 }
@@ -42,6 +42,7 @@ fn gate(p: &Partial, t: Tier) -> Result<(), String> {
     super::need(p, "lines:byte-level", 100_000)?;
     super::need(p, "lines:cpr-pairs", 10_000)?;
     super::need(p, "option-sets", 2304)?;
+    super::need(p, "long-stream-option-sets", 100)?;
     super::need(p, "history-transitions", 10_000)?;
     super::need(p, "cli-runs", 20)?;
     Ok(())
@@ -351,6 +352,24 @@ fn byte_level_lines() -> Vec<Vec<u8>> {
     v.push(vec![b'A'; 70 * 1024]);
     v.push(vec![0xFF; 70 * 1024]);
     v.push(vec![b'8'; 65 * 1024]);
+    // a multi-byte character at every byte offset 0..=300 of an otherwise ASCII line: 2-, 3- and 4-byte
+    // characters and an invalid byte (which becomes the 3-byte replacement character)
+    for k in 0..=300usize {
+        for ch in ["\u{e9}".as_bytes(), "\u{20ac}".as_bytes(), "\u{1d11e}".as_bytes(), &[0xFFu8][..], &[0xC3u8][..]] {
+            let mut l = vec![b'z'; k];
+            l.extend_from_slice(ch);
+            l.extend_from_slice(b"tail");
+            v.push(l);
+        }
+    }
+    // runs of invalid bytes behind 0..3 ASCII bytes (every alignment of the replacement characters)
+    for pad in 0..4usize {
+        for n in [30usize, 64, 90, 128, 200, 255, 256, 257, 1024] {
+            let mut l = vec![b'z'; pad];
+            l.extend(std::iter::repeat_n(0xFFu8, n));
+            v.push(l);
+        }
+    }
     v
 }
 
@@ -629,6 +648,35 @@ fn run(ctx: &mut Ctx) {
             run_option_set(ctx, opts, &stream);
         }
     }
+    // (d') a long stream (600 accepted frames of 40 aircraft) under -d in {-1, 0, 1, 60} x -u x -U x -i
+    {
+        let mut long: Vec<Vec<u8>> = vec![];
+        for k in 0..600u32 {
+            let a = 0x480000 + (k % 40);
+            long.push(match k % 3 { 0 => frames::df11(5, a, 0), 1 => frames::df4(a, frames::ac13_for_alt(100 * (k as i32 % 300))), _ => frames::df17(5, a, frames::me_velocity(&Vel { st: 1, vew: 1 + k % 700, vns: 5, vr: 1 + k % 100, ..Default::default() })) }.hex().into_bytes());
+        }
+        let mut k = 0u64;
+        for d in ["-1", "0", "1", "60", "-9"] {
+            for u in ["--update=-1", "--update=3", "--update=-7"] {
+                for upd in [false, true] {
+                    for i in ["Q", ""] {
+                        k += 1;
+                        job += 1;
+                        if !ctx.mine(job) {
+                            continue;
+                        }
+                        let mut o: Vec<String> = vec![format!("--delete-after={d}"), u.to_string(), "-i".into(), i.into(), "-c".into()];
+                        if upd {
+                            o.push("-U".into());
+                        }
+                        run_option_set(ctx, &o, &long);
+                        ctx.count("long-stream-option-sets");
+                    }
+                }
+            }
+        }
+        let _ = k;
+    }
     // (e) CLI (only from the release-like harness: the CLI binaries are the same for both)
     if crate::profile_name() == "release-like" {
         if let Err(e) = cli::available() {
@@ -701,6 +749,14 @@ fn replay(ctx: &mut Ctx, case: &Value) {
             let prefix: Vec<Vec<u8>> = case.get("prefix").and_then(|p| p.as_array()).map(|a| a.iter().map(&bytes).collect()).unwrap_or_default();
             crate::run::say(&format!("{} line(s) {:?} after {} prefix line(s), cfg [{}], {} build", lines.len(), lines.iter().take(4).map(|l| String::from_utf8_lossy(&l[..l.len().min(80)]).into_owned()).collect::<Vec<_>>(), prefix.len(), cfg.label(), crate::profile_name()));
             run_batch(ctx, &cfg, "replay", &prefix, &lines);
+        }
+        Some("options") if opts.iter().any(|x| x.starts_with("--delete-after=")) => {
+            let mut long: Vec<Vec<u8>> = vec![];
+            for k in 0..600u32 {
+                let a = 0x480000 + (k % 40);
+                long.push(match k % 3 { 0 => frames::df11(5, a, 0), 1 => frames::df4(a, frames::ac13_for_alt(100 * (k as i32 % 300))), _ => frames::df17(5, a, frames::me_velocity(&Vel { st: 1, vew: 1 + k % 700, vns: 5, vr: 1 + k % 100, ..Default::default() })) }.hex().into_bytes());
+            }
+            run_option_set(ctx, &opts, &long)
         }
         Some("options") => run_option_set(ctx, &opts, &mixed_stream()),
         Some("history") => {
